@@ -125,6 +125,15 @@ Theorem C08_looksLikeUUID_is_generated : forall s, NixV.Store.Db.looksLikeUUID s
 Proof. exact NixV.Store.GenBridge.db_looksLikeUUID_is_generated. Qed.
 Print Assumptions C08_looksLikeUUID_is_generated.
 
+
+(** the model's entity-name check is the generated [util::checkEntityName] (empty => EmptyString, '/' => InvalidName) *)
+Require NixV.Store.DbOps.
+Theorem C08_check_name_is_generated : forall name,
+  NixV.Store.DbOps.check_name name =
+  match NixV.Gen.GenUtil.checkEntityName name with Ok _ => None | Err e => Some e | UB _ => None end.
+Proof. exact NixV.Store.GenBridge.db_check_name_is_generated. Qed.
+Print Assumptions C08_check_name_is_generated.
+
 Theorem C08_current_is_repaired : c08_switches current_behaviour = c08_switches repaired.
 Proof. reflexivity. Qed.
 Print Assumptions C08_current_is_repaired.
